@@ -34,11 +34,11 @@ Init == /\ cur = "main" /\ stack = <<>>
         /\ calls = << [fname |-> "main", id |-> "main", caller |-> "", nargs |-> 0, nres |-> 0] >>
         /\ blocks = <<>> /\ glues = <<>>
         /\ neq = 1            \* enterfn("main") writes the one/onex equation
-        /\ ondisk = 0 /\ proved = FALSE /\ hist = <<>>
+        /\ ondisk = 0 /\ proved = 0 /\ hist = <<>>
 
 Bump(f, c, k) == [f EXCEPT ![c] = @ + k]
 Log(a) == hist' = Append(hist, a)
-Can == ~proved /\ Len(hist) < MaxLen
+Can == Len(hist) < MaxLen          \* tracing may go on after a proving step (explicit prove(), then more calls, then the one at exit)
 
 \* PrivVal / a multiplication (one wire, one buffered equation)
 Priv == /\ Can /\ ctr' = Bump(ctr, cur, 1)
@@ -80,9 +80,9 @@ Ret(m) ==
     /\ ondisk' = neq            \* declaring a block flushes the equation file
     /\ UNCHANGED <<ioctr, neq, proved>> /\ Log([a |-> "ret", f |-> "", n |-> m])
 
-\* prove(): flush, then split what is on disk
-Prove == /\ ~proved /\ stack = <<>> /\ hist # <<>>
-         /\ ondisk' = neq /\ proved' = TRUE
+\* prove(): flush, then split what is on disk -- the WHOLE file is read again every time, from empty tables
+Prove == /\ Len(hist) < MaxLen + 1 /\ stack = <<>> /\ hist # <<>> /\ hist[Len(hist)].a # "prove" /\ proved < 2
+         /\ ondisk' = neq /\ proved' = proved + 1
          /\ UNCHANGED <<cur, stack, ctr, ioctr, calls, blocks, glues, neq>> /\ Log([a |-> "prove", f |-> "", n |-> 0])
 
 Next == Priv \/ Mul \/ Pub \/ (\E f \in Fns, n \in 1..2 : Call(f, n)) \/ (\E m \in 0..1 : Ret(m)) \/ Prove
@@ -93,7 +93,8 @@ UniqueCalls  == \A i, j \in DOMAIN calls : i # j => calls[i].id # calls[j].id
 UniqueBlocks == \A i, j \in DOMAIN blocks : i # j => ~(blocks[i].ctx = blocks[j].ctx /\ blocks[i].bn = blocks[j].bn)
 GlueShape    == /\ Len(glues) * 2 = Len(blocks)
                 /\ \A g \in DOMAIN glues : blocks[2 * g - 1].n = blocks[2 * g].n
-SplitSeesAll == proved => ondisk = neq
+JustProved == hist # <<>> /\ hist[Len(hist)].a = "prove"
+SplitSeesAll == JustProved => ondisk = neq
 
-EmitBeh == proved => PrintT(<<"BEH", ToJson([hist |-> hist, calls |-> calls, blocks |-> blocks, glues |-> glues, ctr |-> ctr, ioctr |-> ioctr, neq |-> neq])>>)
+EmitBeh == JustProved => PrintT(<<"BEH", ToJson([hist |-> hist, calls |-> calls, blocks |-> blocks, glues |-> glues, ctr |-> ctr, ioctr |-> ioctr, neq |-> neq])>>)
 =============================================================================
